@@ -54,6 +54,15 @@ def place_expr(F, B, pl, depth):
     return local_expr(F, B, pl["l"], depth)
 
 
+class DC(str):
+    """The projection name of a downcast: equal to "?" for every consumer that does not care, but remembers the variant."""
+
+    def __new__(cls, variant):
+        o = str.__new__(cls, "?")
+        o.variant = variant
+        return o
+
+
 def project(root, pl):
     """Expression of place `pl` given the expression of its base local."""
     if True:
@@ -63,6 +72,8 @@ def project(root, pl):
                 names.append("*")
             elif isinstance(pe, dict) and "f" in pe:
                 names.append(pe.get("name", str(pe["f"])))
+            elif isinstance(pe, dict) and "dc" in pe:
+                names.append(DC(str(pe.get("name", pe.get("dc")))))
             else:
                 names.append("?")
         # tuple field of a tuple-valued expression
